@@ -9,7 +9,7 @@
 From Coq Require Import List NArith ZArith Bool Lia.
 From Verif Require Import Lib.Utf8 Jsonx.Lex Jsonx.LexProofs Jsonx.Tok Jsonx.GoStr Jsonx.Num
   Jsonx.NumProofs Jsonx.Parse Jsonx.ParseProofs Jsonx.Json Jsonx.Encode Jsonx.Term
-  Jsonx.JsonProofs Jsonx.StrAgree Jsonx.Print Jsonx.PrintProofs Jsonx.Roundtrip.
+  Jsonx.JsonProofs Jsonx.StrAgree Jsonx.Print Jsonx.PrintProofs Jsonx.Roundtrip Jsonx.Balance.
 Import ListNotations.
 Local Open Scope N_scope.
 
@@ -915,3 +915,346 @@ Proof.
       cbn [flat_map map app] in Hrest. change (tyl (tk TOperator [44])) with (TOperator, [44]) in Hrest.
       rewrite <- ?app_assoc in Hrest. rewrite <- ?app_assoc. exact Hrest.
 Qed.
+
+(** ** Step D: the parser on the tokens of a JSON text *)
+
+Definition unq (lit : list N) : list N :=
+  match go_unquote lit with Some bs => bs | None => [] end.
+
+Section ParseJson.
+Context {F : Type}.
+Variable pf : list N -> option F.
+Variable fin : list ecode.
+
+Notation mk := (mkp []).
+Notation st := (st_at fin).
+
+Definition mem_ast (astj : jt -> @value F)
+  (i : list N * list N * list N * list N * jt * list N) : okey * @value F :=
+  let '(_, k, _, _, v, _) := i in (KStr (34 :: k) (unq (34 :: k)), astj v).
+
+Fixpoint astj (t : jt) : @value F :=
+  match t with
+  | TNull => VNull
+  | TBool b => VBool b
+  | TNum u => num_ast pf u
+  | TStr body => VStr (34 :: body) (unq (34 :: body))
+  | TArr0 _ => VList []
+  | TArr f m => VList (astj (snd (fst f)) :: map (fun i => astj (snd (fst i))) m)
+  | TObj0 _ => VObject []
+  | TObj f m =>
+      let ma := fun i : list N * list N * list N * list N * jt * list N =>
+                  let '(_, k, _, _, v, _) := i in (KStr (34 :: k) (unq (34 :: k)), astj v) in
+      VObject (ma f :: map ma m)
+  end.
+
+Definition it_okj (okj : jt -> Prop) (i : list N * jt * list N) : Prop :=
+  let '(_, v, w2) := i in okj v /\ has_nl w2 = false.
+Definition mt_okj (okj : jt -> Prop) (i : list N * list N * list N * list N * jt * list N) : Prop :=
+  let '(_, k, w2, _, v, w4) := i in
+  go_unquote (34 :: k) <> None /\ has_nl w2 = false /\ okj v /\ has_nl w4 = false.
+
+(** What an accepted text satisfies: no line end between a value (or key)
+    and the "," ":" "]" "}" that follows; string literals that
+    strconv.Unquote accepts; float literals that strconv.ParseFloat accepts. *)
+Fixpoint okj (t : jt) : Prop :=
+  match t with
+  | TNull | TBool _ | TArr0 _ | TObj0 _ => True
+  | TNum u => num_okb pf u = true
+  | TStr body => go_unquote (34 :: body) <> None
+  | TArr f m =>
+      let ok := fun i : list N * jt * list N => let '(_, v, w2) := i in okj v /\ has_nl w2 = false in
+      ok f /\ (fix all (l : list (list N * jt * list N)) : Prop :=
+                 match l with [] => True | i :: r => ok i /\ all r end) m
+  | TObj f m =>
+      let ok := fun i : list N * list N * list N * list N * jt * list N =>
+                  let '(_, k, w2, _, v, w4) := i in
+                  go_unquote (34 :: k) <> None /\ has_nl w2 = false /\ okj v /\ has_nl w4 = false in
+      ok f /\ (fix all (l : list (list N * list N * list N * list N * jt * list N)) : Prop :=
+                 match l with [] => True | i :: r => ok i /\ all r end) m
+  end.
+
+Lemma okj_arr f m : okj (TArr f m) <-> it_okj okj f /\ Forall (it_okj okj) m.
+Proof.
+  destruct f as [[w1 v] w2]. cbn [okj it_okj]. split; intros [Hf Hm]; (split; [exact Hf|]).
+  - induction m as [|[[a b] c] m IH]; [constructor|]. destruct Hm as [Hi Hm]. constructor; auto.
+  - induction Hm as [|[[a b] c] m Hi Hm IH]; [exact I|]. split; auto.
+Qed.
+Lemma okj_obj f m : okj (TObj f m) <-> mt_okj okj f /\ Forall (mt_okj okj) m.
+Proof.
+  destruct f as [[[[[w1 k] w2] w3] v] w4]. cbn [okj mt_okj]. split; intros [Hf Hm]; (split; [exact Hf|]).
+  - induction m as [|[[[[[a b] c] d] e] g] m IH]; [constructor|]. destruct Hm as [Hi Hm]. constructor; auto.
+  - induction Hm as [|[[[[[a b] c] d] e] g] m Hi Hm IH]; [exact I|]. split; auto.
+Qed.
+Lemma astj_obj f m : astj (TObj f m) = VObject (mem_ast astj f :: map (mem_ast astj) m).
+Proof. destruct f as [[[[[w1 k] w2] w3] v] w4]. reflexivity. Qed.
+
+Lemma p_next_mkSt t ts : p_next (mkSt t ts fin [] false) = st ts.
+Proof. destruct ts; reflexivity. Qed.
+
+Lemma st_cons t ts : st (t :: ts) = mkSt t ts fin [] false.
+Proof. reflexivity. Qed.
+
+Lemma perrs_add_ne e s0 : perrs (p_add e s0) <> [].
+Proof. apply add_err_nonempty. Qed.
+
+(** The statement for one value. *)
+Definition PJ (t : jt) : Prop :=
+  forall rest f v st', parse_value pf f (st (map mk (FT t) ++ rest)) = Some (v, st') ->
+  perrs st' = [] -> v = astj t /\ st' = st rest /\ okj t.
+
+Lemma FT_head t : exists ty l r, FT t = (ty, l) :: r /\
+  ttype_eqb ty TOperator && (list_N_eqb l [93] || list_N_eqb l [125]) = false /\
+  ty <> TSemi.
+Proof.
+  destruct t as [|b|u|body|w|f m|w|f m].
+  - eexists _, _, _. split; [reflexivity|]. split; [reflexivity|discriminate].
+  - eexists _, _, _. split; [reflexivity|]. split; [reflexivity|discriminate].
+  - cbn [FT]. destruct u as [|c r].
+    + eexists _, _, _. split; [reflexivity|]. cbn. destruct (num_is_float []); split; (reflexivity || discriminate).
+    + destruct (N.eqb_spec c 45) as [->|Hc].
+      * eexists _, _, _. split; [reflexivity|]. split; [reflexivity|discriminate].
+      * rewrite (num_ft_other c r Hc). eexists _, _, _. split; [reflexivity|].
+        destruct (num_is_float (c :: r)); split; (reflexivity || discriminate).
+  - eexists _, _, _. split; [reflexivity|]. split; [reflexivity|discriminate].
+  - eexists _, _, _. split; [reflexivity|]. split; [reflexivity|discriminate].
+  - rewrite FT_arr. eexists _, _, _. split; [reflexivity|]. split; [reflexivity|discriminate].
+  - eexists _, _, _. split; [reflexivity|]. split; [reflexivity|discriminate].
+  - rewrite FT_obj. eexists _, _, _. split; [reflexivity|]. split; [reflexivity|discriminate].
+Qed.
+
+(** After an element: a separator token if a line end followed the value. *)
+Lemma after_item w2 c rest0 :
+  (has_nl w2 = false /\ map mk (semis w2 ++ (TOperator, [c]) :: rest0) = mk (TOperator, [c]) :: map mk rest0) \/
+  (has_nl w2 = true /\ map mk (semis w2 ++ (TOperator, [c]) :: rest0)
+                       = mk (TSemi, [10]) :: mk (TOperator, [c]) :: map mk rest0).
+Proof. unfold semis. destruct (has_nl w2); [right|left]; split; reflexivity. Qed.
+
+Lemma see_semi ops ts : see_op ops (st (mk (TSemi, [10]) :: ts)) = false.
+Proof. now rewrite see_op_at. Qed.
+
+(** List entries, from the position of an element. *)
+Lemma ple_inv : forall m, Forall (fun i => PJ (snd (fst i))) m ->
+  forall i, PJ (snd (fst i)) ->
+  forall acc rest f es st',
+    parse_list_entries pf f
+      (st (map mk (it_ft i ++ flat_map (fun j => (TOperator, [44]) :: it_ft j) m ++ [(TOperator, [93])]) ++ rest)) acc
+    = Some (es, st') -> perrs st' = [] ->
+    es = acc ++ astj (snd (fst i)) :: map (fun j => astj (snd (fst j))) m /\
+    st' = st (mk (TOperator, [93]) :: rest) /\ it_okj okj i /\ Forall (it_okj okj) m.
+Proof.
+  induction 1 as [|i2 m Hi2 Hm IH]; intros [[w1 v] w2] Hv acc rest f es st' H He; cbn [fst snd it_ft] in *.
+  - (* last element *)
+    destruct f as [|f]; [discriminate|]. rewrite parse_list_entries_S in H. unfold ple_body in H.
+    cbn [flat_map app] in H. rewrite <- !app_assoc, !map_app, <- !app_assoc in H.
+    destruct (FT_head v) as (ty & l & r & Eft & Hnc & _). rewrite Eft in H. cbn [map app] in H.
+    rewrite see_op_at in H.
+    assert (Hns : ttype_eqb ty TOperator && existsb (list_N_eqb l) [[93]] = false).
+    { cbn [existsb]. destruct (ttype_eqb ty TOperator); [|reflexivity]. cbn [andb] in *.
+      apply orb_false_iff in Hnc as [Hnc _]. now rewrite Hnc. }
+    rewrite Hns in H.
+    match type of H with context [parse_value pf f (st (mk (ty, l) :: map mk r ++ ?X))] =>
+      change (mk (ty, l) :: map mk r ++ X) with (map mk ((ty, l) :: r) ++ X) in H end.
+    rewrite <- Eft in H.
+    destruct (parse_value pf f _) as [[v1 st1]|] eqn:E1; [|discriminate].
+    pose proof (parse_value_reach pf _ _ _ _ E1) as R1.
+    set (st2 := if see_op [[44]] st1 then p_next st1
+                else if negb (see_op [[93]] st1) then snd (expect_op [44] st1) else st1) in *.
+    assert (R2 : reach st1 st2).
+    { subst st2. destruct (see_op [[44]] st1); [apply reach_next|].
+      destruct (negb _); [apply reach_expect_op|apply R_refl]. }
+    assert (R3 : reach st2 st').
+    { destruct (jail st2); [injection H as _ <-; apply R_refl|].
+      exact (proj2 (proj2 (parse_all_reach pf f)) _ _ _ _ H). }
+    assert (He1 : perrs st1 = []) by (eapply no_err_back; [eapply reach_trans; eauto|exact He]).
+    destruct (Hv _ _ _ _ E1 He1) as (-> & -> & Hok).
+    unfold semis in *. destruct (has_nl w2) eqn:Enl.
+    + (* a separator token where "]" or "," is expected *)
+      exfalso. cbn [map app] in *. subst st2. rewrite !see_semi in R3. cbn [negb] in R3.
+      unfold expect_op in R3. change (jail (st (mk (TSemi, [10]) :: mk (TOperator, [93]) :: rest))) with false in R3.
+      rewrite see_semi in R3. cbn [snd] in R3. exact (add_not_clean _ _ _ R3 He).
+    + cbn [map app] in *. subst st2. rewrite !see_op_at in H.
+      cbn [ttype_eqb existsb list_N_eqb N.eqb Pos.eqb andb orb negb] in H.
+      change (jail (st (mk (TOperator, [93]) :: rest))) with false in H.
+      destruct f as [|f]; [discriminate|]. rewrite parse_list_entries_S in H. unfold ple_body in H.
+      rewrite see_op_at in H. cbn [ttype_eqb existsb list_N_eqb N.eqb Pos.eqb andb orb] in H.
+      injection H as <- <-. repeat split; auto.
+  - (* more elements follow *)
+    destruct f as [|f]; [discriminate|]. rewrite parse_list_entries_S in H. unfold ple_body in H.
+    cbn [flat_map] in H. rewrite <- !app_assoc, !map_app, <- !app_assoc in H.
+    destruct (FT_head v) as (ty & l & r & Eft & Hnc & _). rewrite Eft in H. cbn [map app] in H.
+    rewrite see_op_at in H.
+    assert (Hns : ttype_eqb ty TOperator && existsb (list_N_eqb l) [[93]] = false).
+    { cbn [existsb]. destruct (ttype_eqb ty TOperator); [|reflexivity]. cbn [andb] in *.
+      apply orb_false_iff in Hnc as [Hnc _]. now rewrite Hnc. }
+    rewrite Hns in H.
+    match type of H with context [parse_value pf f (st (mk (ty, l) :: map mk r ++ ?X))] =>
+      change (mk (ty, l) :: map mk r ++ X) with (map mk ((ty, l) :: r) ++ X) in H end.
+    rewrite <- Eft in H.
+    destruct (parse_value pf f _) as [[v1 st1]|] eqn:E1; [|discriminate].
+    pose proof (parse_value_reach pf _ _ _ _ E1) as R1.
+    set (st2 := if see_op [[44]] st1 then p_next st1
+                else if negb (see_op [[93]] st1) then snd (expect_op [44] st1) else st1) in *.
+    assert (R2 : reach st1 st2).
+    { subst st2. destruct (see_op [[44]] st1); [apply reach_next|].
+      destruct (negb _); [apply reach_expect_op|apply R_refl]. }
+    assert (R3 : reach st2 st').
+    { destruct (jail st2); [injection H as _ <-; apply R_refl|].
+      exact (proj2 (proj2 (parse_all_reach pf f)) _ _ _ _ H). }
+    assert (He1 : perrs st1 = []) by (eapply no_err_back; [eapply reach_trans; eauto|exact He]).
+    destruct (Hv _ _ _ _ E1 He1) as (-> & -> & Hok).
+    unfold semis in *. destruct (has_nl w2) eqn:Enl.
+    + exfalso. cbn [map app] in *. subst st2. rewrite !see_semi in R3. cbn [negb] in R3.
+      unfold expect_op in R3.
+      match type of R3 with context [jail (st (mk (TSemi, [10]) :: ?X))] =>
+        change (jail (st (mk (TSemi, [10]) :: X))) with false in R3 end.
+      rewrite see_semi in R3. cbn [snd] in R3. exact (add_not_clean _ _ _ R3 He).
+    + cbn [map app] in *. subst st2. rewrite !see_op_at in H.
+      cbn [ttype_eqb existsb list_N_eqb N.eqb Pos.eqb andb orb negb] in H.
+      rewrite p_next_st_at in H.
+      match type of H with context [jail (st ?X)] =>
+        assert (Hj : jail (st X) = false) by (destruct X; reflexivity); rewrite Hj in H end.
+      specialize (IH i2 Hi2 (acc ++ [astj v]) rest f es st').
+      rewrite !map_app, <- !app_assoc in IH. cbn [map app] in IH.
+      destruct (IH H He) as (-> & -> & Hok2 & Hokm).
+      split; [cbn [map]; rewrite <- ?app_assoc; reflexivity|]. split; [reflexivity|].
+      split; [split; auto|constructor; auto].
+Qed.
+
+(** Object entries, from the position of a member. *)
+Lemma poe_inv : forall m, Forall (fun i => PJ (snd (fst i))) m ->
+  forall i, PJ (snd (fst i)) ->
+  forall acc rest f es st',
+    parse_object_entries pf f
+      (st (map mk (mt_ft i ++ flat_map (fun j => (TOperator, [44]) :: mt_ft j) m ++ [(TOperator, [125])]) ++ rest)) acc
+    = Some (es, st') -> perrs st' = [] ->
+    es = acc ++ mem_ast astj i :: map (mem_ast astj) m /\
+    st' = st (mk (TOperator, [125]) :: rest) /\ mt_okj okj i /\ Forall (mt_okj okj) m.
+Proof.
+  assert (Hstep : forall w1 k w2 w3 v w4 (Hv : PJ v) X acc f es st',
+    (* X: what follows the member: "," ... or "}" ... *)
+    parse_object_entries pf (S f)
+      (st (map mk (mt_ft (w1, k, w2, w3, v, w4)) ++ X)) acc = Some (es, st') -> perrs st' = [] ->
+    go_unquote (34 :: k) <> None /\ has_nl w2 = false /\ okj v /\
+    exists st4, st4 = st (map mk (semis w4) ++ X) /\
+      (let st5 := if see_op [[44]] st4 then p_next st4
+                  else if negb (see_op [[125]] st4) then snd (expect_op [44] st4) else st4 in
+       (if jail st5 then Some (acc ++ [mem_ast astj (w1, k, w2, w3, v, w4)], st5)
+        else parse_object_entries pf f st5 (acc ++ [mem_ast astj (w1, k, w2, w3, v, w4)]))
+       = Some (es, st'))).
+  { intros w1 k w2 w3 v w4 Hv X acc f es st' H He.
+    rewrite parse_object_entries_S in H. unfold poe_body in H.
+    cbn [mt_ft] in H. cbn [map app] in H. rewrite see_op_at in H. cbn [ttype_eqb andb] in H.
+    change (p_see TIdent (st (mk (TString, 34 :: k) :: map mk (semis w2 ++ (TOperator, [58]) :: FT v ++ semis w4) ++ X))
+            || p_see TString (st (mk (TString, 34 :: k) :: map mk (semis w2 ++ (TOperator, [58]) :: FT v ++ semis w4) ++ X)))
+      with true in H. cbn [negb] in H.
+    rewrite p_next_st_at in H.
+    change (cur (st (mk (TString, 34 :: k) :: map mk (semis w2 ++ (TOperator, [58]) :: FT v ++ semis w4) ++ X)))
+      with (mk (TString, 34 :: k)) in H.
+    cbn [pty mkp fst snd ttype_eqb plit] in H.
+    set (s1 := st (map mk (semis w2 ++ (TOperator, [58]) :: FT v ++ semis w4) ++ X)) in *.
+    unfold parse_string_value in H. cbn [plit mkp snd] in H.
+    (* reachability of the final state from the state after the key *)
+    assert (Hreach : forall s2 key,
+              match parse_value pf f (snd (expect_op [58] s2)) with
+              | None => None
+              | Some (v0, st4) =>
+                  let st5 := if see_op [[44]] st4 then p_next st4
+                             else if negb (see_op [[125]] st4) then snd (expect_op [44] st4) else st4 in
+                  let acc' := acc ++ [(key, v0)] in
+                  if jail st5 then Some (acc', st5) else parse_object_entries pf f st5 acc'
+              end = Some (es, st') -> reach s2 st').
+    { intros s2 key H0.
+      destruct (parse_value pf f (snd (expect_op [58] s2))) as [[v0 st4]|] eqn:E0; [|discriminate].
+      eapply reach_trans; [apply reach_expect_op|].
+      eapply reach_trans; [eapply parse_value_reach; exact E0|].
+      cbv zeta in H0.
+      set (st5 := if see_op [[44]] st4 then p_next st4
+                  else if negb (see_op [[125]] st4) then snd (expect_op [44] st4) else st4) in *.
+      assert (R5 : reach st4 st5).
+      { subst st5. destruct (see_op [[44]] st4); [apply reach_next|].
+        destruct (negb _); [apply reach_expect_op|apply R_refl]. }
+      eapply reach_trans; [exact R5|].
+      destruct (jail st5); [injection H0 as _ <-; apply R_refl|].
+      exact (proj1 (proj2 (parse_all_reach pf f)) _ _ _ _ H0). }
+    destruct (go_unquote (34 :: k)) as [bs|] eqn:Eu.
+    2:{ exfalso. exact (add_not_clean _ _ _ (Hreach _ _ H) He). }
+    assert (Hu : unq (34 :: k) = bs) by (unfold unq; now rewrite Eu).
+    split; [discriminate|].
+    subst s1. unfold semis in H at 1. unfold semis at 1. destruct (has_nl w2) eqn:En2.
+    { exfalso. cbn [map app] in H.
+      unfold expect_op at 1 in H.
+      match type of H with context [jail (st (mk (TSemi, [10]) :: ?Y))] =>
+        change (jail (st (mk (TSemi, [10]) :: Y))) with false in H end.
+      rewrite see_semi in H. cbn [snd] in H.
+      match type of H with context [parse_value pf f (p_add EExpectOp ?s0)] =>
+        assert (R : reach (p_add EExpectOp s0) st') end.
+      { destruct (parse_value pf f _) as [[v0 st4]|] eqn:E0; [|discriminate].
+        eapply reach_trans; [eapply parse_value_reach; exact E0|].
+        cbv zeta in H.
+        set (st5 := if see_op [[44]] st4 then p_next st4
+                    else if negb (see_op [[125]] st4) then snd (expect_op [44] st4) else st4) in *.
+        assert (R5 : reach st4 st5).
+        { subst st5. destruct (see_op [[44]] st4); [apply reach_next|].
+          destruct (negb _); [apply reach_expect_op|apply R_refl]. }
+        eapply reach_trans; [exact R5|].
+        destruct (jail st5); [injection H as _ <-; apply R_refl|].
+        exact (proj1 (proj2 (parse_all_reach pf f)) _ _ _ _ H). }
+      exact (add_not_clean _ _ _ R He). }
+    split; [reflexivity|]. cbn [map app] in H. rewrite expect_op_at in H. cbn [snd] in H.
+    rewrite map_app, <- app_assoc in H.
+    destruct (parse_value pf f _) as [[v0 st4]|] eqn:E0; [|discriminate].
+    cbv zeta in H.
+    set (st5 := if see_op [[44]] st4 then p_next st4
+                else if negb (see_op [[125]] st4) then snd (expect_op [44] st4) else st4) in *.
+    assert (R5 : reach st4 st5).
+    { subst st5. destruct (see_op [[44]] st4); [apply reach_next|].
+      destruct (negb _); [apply reach_expect_op|apply R_refl]. }
+    assert (R6 : reach st5 st').
+    { destruct (jail st5); [injection H as _ <-; apply R_refl|].
+      exact (proj1 (proj2 (parse_all_reach pf f)) _ _ _ _ H). }
+    assert (He4 : perrs st4 = []) by (eapply no_err_back; [eapply reach_trans; eauto|exact He]).
+    destruct (Hv _ _ _ _ E0 He4) as (-> & -> & Hok).
+    split; [exact Hok|]. eexists. split; [reflexivity|]. subst st5. cbn [mem_ast]. rewrite Hu. exact H. }
+  induction 1 as [|i2 m Hi2 Hm IH]; intros [[[[[w1 k] w2] w3] v] w4] Hv acc rest f es st' H He; cbn [fst snd] in *.
+  - (* last member *)
+    destruct f as [|f]; [discriminate|].
+    cbn [flat_map app] in H. rewrite map_app, <- app_assoc in H.
+    destruct (Hstep w1 k w2 w3 v w4 Hv _ acc f es st' H He) as (Hk & Hn2 & Hok & st4 & -> & H5).
+    unfold semis in H5. destruct (has_nl w4) eqn:En4.
+    + exfalso. cbn [map app] in H5. rewrite !see_semi in H5. cbn [negb] in H5.
+      unfold expect_op in H5.
+      change (jail (st (mk (TSemi, [10]) :: mk (TOperator, [125]) :: rest))) with false in H5.
+      rewrite see_semi in H5. cbn [snd jail p_add] in H5. injection H5 as _ <-.
+      exact (perrs_add_ne _ _ He).
+    + cbn [map app] in H5. rewrite !see_op_at in H5.
+      cbn [ttype_eqb existsb list_N_eqb N.eqb Pos.eqb andb orb negb] in H5.
+      change (jail (st (mk (TOperator, [125]) :: rest))) with false in H5.
+      destruct f as [|f]; [discriminate|]. rewrite parse_object_entries_S in H5. unfold poe_body in H5.
+      rewrite see_op_at in H5. cbn [ttype_eqb existsb list_N_eqb N.eqb Pos.eqb andb orb] in H5.
+      injection H5 as <- <-. repeat split; auto.
+  - (* more members follow *)
+    destruct f as [|f]; [discriminate|].
+    cbn [flat_map] in H. rewrite <- !app_assoc in H. rewrite map_app, <- app_assoc in H.
+    destruct (Hstep w1 k w2 w3 v w4 Hv _ acc f es st' H He) as (Hk & Hn2 & Hok & st4 & -> & H5).
+    unfold semis in H5. destruct (has_nl w4) eqn:En4.
+    + exfalso. cbn [map app] in H5. rewrite !see_semi in H5. cbn [negb] in H5.
+      unfold expect_op in H5.
+      match type of H5 with context [jail (st (mk (TSemi, [10]) :: ?Y))] =>
+        change (jail (st (mk (TSemi, [10]) :: Y))) with false in H5 end.
+      rewrite see_semi in H5. cbn [snd jail p_add] in H5. injection H5 as _ <-.
+      exact (perrs_add_ne _ _ He).
+    + cbn [map app] in H5. rewrite !see_op_at in H5.
+      cbn [ttype_eqb existsb list_N_eqb N.eqb Pos.eqb andb orb negb] in H5.
+      rewrite p_next_st_at in H5.
+      match type of H5 with context [jail (st ?Y)] =>
+        assert (Hj : jail (st Y) = false) by (destruct Y; reflexivity); rewrite Hj in H5 end.
+      specialize (IH i2 Hi2 (acc ++ [mem_ast astj (w1, k, w2, w3, v, w4)]) rest f es st').
+      rewrite !map_app, <- !app_assoc in IH. cbn [map app] in IH.
+      rewrite !map_app, <- !app_assoc in H5. cbn [map app] in H5.
+      destruct (IH H5 He) as (-> & -> & Hok2 & Hokm).
+      split; [cbn [map]; rewrite <- ?app_assoc; reflexivity|]. split; [reflexivity|].
+      split; [cbn [mt_okj]; auto|constructor; auto].
+Qed.
+
+End ParseJson.
